@@ -62,6 +62,18 @@ fn emit_hom<R: Ent + EucRing>(t: &mut Tracer, st: &mut Stats, n: usize, d1: &SpM
     t.emit(&e); st.events += 1;
 }
 
+/// both routes on one given pair
+fn run_pair<R: Ent + EucRing>(t: &mut Tracer, st: &mut Stats, n: usize, s1: &SpMat<R>, s2: &SpMat<R>, machine: bool) where for<'x> &'x R: EucRingOps<R> {
+    for with in [true, false] {
+        let (x1, x2) = (s1.clone(), s2.clone());
+        match guarded(|| HomologyCalc::calculate(x1, x2, with)) {
+            Ok((rank, tors, tr)) => { let tr = tr.map(|t| (t.forward_mat(), t.backward_mat())); emit_hom(t, st, n, s1, s2, rank, &tors, tr, "HomologyCalc"); }
+            Err(m) if machine && m.contains("overflow") => { st.outside += 1; }
+            Err(m) => { t.emit(&json!({"op":"hom","res":"panic","panic":m,"ring":R::ring(),"type":R::tname(),"d1":sp_json(s1),"d2":sp_json(s2)})); st.events += 1; st.panics += 1; }
+        }
+    }
+}
+
 fn case<R: Ent + EucRing>(rng: &mut StdRng, t: &mut Tracer, st: &mut Stats, maxd: usize, tors_pool: &[i64], machine: bool) where for<'x> &'x R: EucRingOps<R> {
     st.cases += 1;
     let (n, d1, d2) = planted::<R>(rng, maxd, tors_pool, st);
@@ -96,6 +108,20 @@ pub fn record(a: &Args) {
     let mut st = Stats::default();
     let (nc, maxd) = if a.thorough() { (150, 7) } else { (24, 5) };
     macro_rules! run { ($t:ty, $salt:expr, $maxd:expr, $pool:expr, $machine:expr) => {{ let mut rng = a.rng($salt); for _ in 0..nc { case::<$t>(&mut rng, &mut t, &mut st, $maxd, $pool, $machine); } }} }
+    // spec -> impl: TLC-enumerated pairs with d2 d1 = 0, over Z, F3 and Z[i]
+    if let Some(pth) = &a.inp {
+        for (k, ln) in read_ndjson(pth).iter().enumerate() {
+            let g = |v: &Value| -> Vec<Vec<i64>> { v.as_array().unwrap().iter().map(|r| r.as_array().unwrap().iter().map(|x| x.as_i64().unwrap()).collect()).collect() };
+            let (a1, a2) = (g(&ln["d1"]), g(&ln["d2"]));
+            st.cases += 1;
+            run_pair::<i64>(&mut t, &mut st, 2, &sp_from_dense(&a1, 2, 2, &|_, _| false), &sp_from_dense(&a2, a2.len(), 2, &|_, _| false), true);
+            if k % 4 == 0 { let m = |d: &Vec<Vec<i64>>| -> Vec<Vec<FF<3>>> { d.iter().map(|r| r.iter().map(|x| <FF<3> as Ent>::of_int(*x)).collect()).collect() };
+                // over F3 the product is still zero
+                run_pair::<FF<3>>(&mut t, &mut st, 2, &sp_from_dense(&m(&a1), 2, 2, &|_, _| false), &sp_from_dense(&m(&a2), a2.len(), 2, &|_, _| false), false); }
+            if k % 4 == 2 { let m = |d: &Vec<Vec<i64>>| -> Vec<Vec<GaussInt<i64>>> { d.iter().map(|r| r.iter().map(|x| <GaussInt<i64> as Ent>::of_int(*x)).collect()).collect() };
+                run_pair::<GaussInt<i64>>(&mut t, &mut st, 2, &sp_from_dense(&m(&a1), 2, 2, &|_, _| false), &sp_from_dense(&m(&a2), a2.len(), 2, &|_, _| false), true); }
+        }
+    }
     let pool: &[i64] = &[2, 3, 4, 6, 9, 2, 5, 12];
     run!(i64, 1, maxd, pool, true); run!(BigInt, 2, maxd, pool, false); run!(Ratio<i64>, 3, maxd, &[2, 3], true);
     run!(FF<3>, 4, maxd, &[], false); run!(FF<5>, 5, maxd, &[], false);
